@@ -4,6 +4,7 @@ import (
 	"bytes"
 	"errors"
 	"fmt"
+	"runtime"
 	"os"
 	"strconv"
 	"unsafe"
@@ -52,6 +53,37 @@ func c02(c *core.Ctx) {
 	c.Section("random", c.N(100000, 3000000), func(_ int64, r *gen.Rand) {
 		in := r.Hostile(seeds(), 4096)
 		c02Judge(c, in, "random", true)
+	})
+	// (e) every input of 0..3 bytes and a few of 19/20 bytes through every byte-taking entry point: the empty input is
+	// an input like any other (also for GobDecode, whatever GobEncode of a zero Message produces)
+	c.SectionSerial("tiny-inputs-every-entry-point", 1, func(_ int64, r *gen.Rand) {
+		inputs := [][]byte{nil, {}, make([]byte, 0, 64), {0}, {0, 1}, {0, 1, 0}, {0, 1, 0, 0}, make([]byte, 19), make([]byte, 20)}
+		entries := map[string]func(m *stun.Message, b []byte) error{
+			"Decode":          func(m *stun.Message, b []byte) error { return stun.Decode(b, m) },
+			"Message.Decode":  func(m *stun.Message, b []byte) error { m.Raw = b; return m.Decode() },
+			"Write":           func(m *stun.Message, b []byte) error { _, err := m.Write(b); return err },
+			"UnmarshalBinary": func(m *stun.Message, b []byte) error { return m.UnmarshalBinary(b) },
+			"GobDecode":       func(m *stun.Message, b []byte) error { return m.GobDecode(b) },
+			"CloneTo":         func(m *stun.Message, b []byte) error { return (&stun.Message{Raw: b}).CloneTo(m) },
+			"ReadFrom":        func(m *stun.Message, b []byte) error { m.Raw = make([]byte, 0, 64); _, err := m.ReadFrom(bytes.NewReader(b)); return err },
+		}
+		for name, e := range entries {
+			for _, in := range inputs {
+				for used := 0; used < 2; used++ {
+					m := new(stun.Message)
+					if used == 1 {
+						_ = stun.Decode(c02Previous, m)
+					}
+					var err error
+					p, _ := safely(func() { err = e(m, in) })
+					c.Eval(1)
+					if rm, why := ref.Parse(in); p == nil && (err == nil) != (rm != nil) {
+						c.Violate("verdict", "verdict:"+name, map[string]interface{}{"entry": name, "input_hex": core.Hex(in), "len": len(in), "lib_error": fmt.Sprint(err), "reference": why, "receiver_used_before": used == 1})
+					}
+				}
+			}
+		}
+		c.Distinct(r.U64())
 	})
 	// (d) the largest messages the length field can describe (65536..65552 bytes on the wire) and messages with
 	// thousands of attributes: size alone is no reason to reject or to forget attributes.
@@ -362,6 +394,43 @@ func c02Lookups(c *core.Ctx, m *stun.Message, rm *ref.Msg, in []byte) {
 				m.Attributes = before
 			}
 			c.Count("foreach_failing_callbacks", 2)
+			if k == 0 && gen.HashBytes(in)%4 == 0 {
+				// the callback ends its goroutine (runtime.Goexit: what t.FailNow/t.Skip do, what a worker that gives up
+				// does): deferred restores run then too, recover-based ones do not
+				n = 0
+				done := make(chan struct{})
+				go func() {
+					defer close(done)
+					_ = m.ForEach(at, func(*stun.Message) error {
+						n++
+						if n == len(idxs) {
+							runtime.Goexit()
+						}
+
+						return nil
+					})
+				}()
+				<-done
+				if !sameAttrSlice(before, m.Attributes) {
+					c.Violate("foreach-restore", "ForEach-restore", map[string]interface{}{"input_hex": core.Hex(in), "type": t, "mode": "callback ended its goroutine (runtime.Goexit)"})
+					m.Attributes = before
+				}
+				// a clone taken from inside a callback is a decode of the bytes, not of the narrowed view
+				var inside stun.Message
+				var cerr error
+				_ = m.ForEach(at, func(mm *stun.Message) error {
+					cerr = mm.CloneTo(&inside)
+
+					return errCallback
+				})
+				if cerr != nil || len(inside.Attributes) != len(before) || !bytes.Equal(inside.Raw, m.Raw) {
+					c.Violate("content", "content:CloneTo-inside-ForEach", map[string]interface{}{"input_hex": core.Hex(in), "type": t,
+						"clone_attributes": len(inside.Attributes), "message_attributes": len(before), "err": fmt.Sprint(cerr)})
+				} else if d := diffRef(&inside, rm, in); d != "" {
+					c.Violate("content", "content:CloneTo-inside-ForEach", map[string]interface{}{"input_hex": core.Hex(in), "diff": d})
+				}
+				c.Count("foreach_goexit_and_clone", 1)
+			}
 		}
 	}
 }
